@@ -3,6 +3,7 @@ package c11
 import (
 	"reflect"
 	"testing"
+	"unicode"
 )
 
 // Unit tests of the reference model (not run by the driver).
@@ -53,6 +54,41 @@ func TestModelMatches(t *testing.T) {
 		if !ok {
 			t.Fatalf("tokenize(%q) out of scope", c.query)
 		}
+		if got := matches([]string{c.str}, toks); got != c.want {
+			t.Errorf("matches(%q, %q) = %v want %v", c.str, c.query, got, c.want)
+		}
+	}
+}
+
+// Non-ASCII letters: the model's fold table against the Unicode mapping, and a
+// few matches in the spirit of the documented case-insensitive filter.
+func TestModelLowerNonASCII(t *testing.T) {
+	for up, lo := range lowerTable {
+		if unicode.ToLower(up) != lo {
+			t.Errorf("table %q -> %q, unicode.ToLower gives %q", up, lo, unicode.ToLower(up))
+		}
+	}
+	for _, r := range unicodeLetters {
+		if modelLower(string(unicode.ToUpper(r))) != string(r) {
+			t.Errorf("modelLower(upper(%q)) = %q", r, modelLower(string(unicode.ToUpper(r))))
+		}
+	}
+	cases := []struct {
+		str, query string
+		want       bool
+	}{
+		{"École normale", "école", true},
+		{"ÉCOLE", "école", true},
+		{"Москва", "МОСКВА", true},
+		{"xⱥy", "\u023A", true},
+		{"x\u023Ay", "ⱥy", true},
+		{"\u212Am", "km", true},
+		{"kilo", "\u212AILO", true},
+		{"\u0130d", "id", true},
+		{"école", "ecole", false},
+	}
+	for _, c := range cases {
+		toks, _ := tokenize(c.query)
 		if got := matches([]string{c.str}, toks); got != c.want {
 			t.Errorf("matches(%q, %q) = %v want %v", c.str, c.query, got, c.want)
 		}
